@@ -152,6 +152,15 @@ def run_loop(chk, pid):
         if calls:
             _run_loop_scenario(chk, pid, S, fi, host, calls, scen)
     calls = all_calls
+    # every date of the data is visited: nothing leaves the date loop early (a bankrupt strategy is still updated on every later date)
+    date_loops = set()
+    for e in all_calls:
+        for l_ in (e.loops or ()):
+            date_loops.add(l_)
+    early = [l_ for l_ in date_loops if getattr(l_, "has_break", False)]
+    if pid in ("C16", "C01", "C08", "C03", "C09", "C12", "C13"):
+        chk.ob("C16.R3", not early, BACKTEST, host, "date-loop-runs-to-the-end", "the date loop visits every date (no early exit): after a bankruptcy the strategy is still updated on every "
+               "remaining date, so that its history is complete and flat", where=fi.where, expected="no break in the loop over the dates")
     setup = [e for e in calls if e.name == "setup"]
     if pid in ("C11",):
         hr = S.writes("has_run", SELF)
